@@ -173,7 +173,7 @@ V.SPECIAL.update(SPECIALS)
 PLAIN = [0, 1, -1, 2, 3, 4, 5, 2 ** 31, 2 ** 63, 2 ** 64, 2 ** 70, -2 ** 70, 10 ** 400, True, False,
          0.0, -0.0, 0.5, 1.0, 1.5, 3.0, 1e308, inf, -inf, nan, 100, -100,
          1j, complex(nan, 0), complex(0.5, 0),
-         "", "a", "abc", "abcd", "abcdef", "yes", "y", "ye", "n", "no", "é", "1", "0.5", b"", b"a", None,
+         "", "a", "abc", "abcd", "abcdef", "yes", "y", "ye", "n", "no", "al", "alp", "é", "1", "0.5", b"", b"a", None,
          (), (1,), (1, 2), (1, "a"), (1.0, 2), ("a", 1), (0.5, 1), (1, (0.5, True)), (1, 2, 3), (nan, 1), (1, 2, "a"),
          ((1, "a"), 2),
          [1, 2], [], ["a"], [1, "a"], {}, {1: 2}, {"a": 1}, set(), {1}, {"a"}]
@@ -671,6 +671,8 @@ def grid():
     g += [["Enum", [1, 2, "a", None]], ["Enum", [1.0, True, "yes"]], ["Enum", [{"f": "nan"}, 1]], ["Enum", [{"t": [1, 2]}, 0.5]],
           ["Map", [["yes", 1], ["no", 0], [1, 2]]], ["Map", [[{"t": [1, 2]}, "pair"], [None, "none"]]],
           ["PrefixList", ["yes", "no", "yeah"]], ["PrefixList", ["a", "ab", "abc"]],
+          # a proper prefix shared by THREE values ("a", "al"), by two ("alp..." is unique, "b" too)
+          ["PrefixList", ["alpha", "alto", "almond", "beta"]], ["PrefixMap", [["alpha", 1], ["alto", 2], ["almond", 3], ["beta", 4]]],
           ["PrefixMap", [["yes", 1], ["no", 0], ["yeah", 2]]],
           ["Tuple", [["Int"], ["Int"]]], ["Tuple", [["Float"], ["Str"]]], ["Tuple", [["Int"], ["Tuple", [["Float"], ["Bool"]]]]],
           ["Tuple", [["Range", 0.0, 1.0, False, False], ["Int"]]], ["Tuple", [["Int"], ["Str"]]],
@@ -678,6 +680,11 @@ def grid():
           ["String", 0, 4, "^[a-z]*$"], ["String", 2, None, "^[a-z]*$"], ["String", 0, 2, ""], ["String", 3, None, ""],
           ["List", ["Int"], 0, None], ["List", ["Int"], 1, 2], ["List", ["Float"], 0, None], ["List", ["Str"], 0, 3],
           ["Dict", ["Str"], ["Int"]], ["Dict", ["Int"], ["Float"]], ["Set", ["Int"]], ["Set", ["Str"]], ["None"]]
+    # a mapped alternative next to one that takes UNHASHABLE values (the mapping is asked about a list / dict)
+    g += [["Either", [["Map", [["yes", 1], ["no", 0]]], ["List", ["Int"], 0, None]]],
+          ["Either", [["PrefixMap", [["yes", 1], ["no", 0]]], ["Dict", ["Str"], ["Int"]]]],
+          ["Either", [["PrefixList", ["yes", "no"]], ["List", ["Int"], 0, None]]],
+          ["Union", [["Map", [["yes", 1], ["no", 0]]], ["Set", ["Int"]]]]]
     g += [["MapMut", [["yes", 1], ["no", 0]], [["yes", 1], ["maybe", 2]]],
           ["Either", [["MapMut", [["yes", 1], ["no", 0]], [["yes", 1], ["maybe", 2]]], ["Int"]]]]
     g += [["InstanceClone", "Foo", True, False], ["InstanceClone", "Foo", False, True], ["InstanceClone", "int", True, False]]
